@@ -316,6 +316,9 @@ def install(R):
 
     # ------------------------------------------------------------------ assumed models of stdlib file-system queries
     def ext_isfile(eng, fr, p, args, kwargs, node):
+        rg = R.symbols.get("rg_before")
+        if rg is not None:
+            rg(eng, fr, node)
         fr.st.events.append(Event("fs", "query", [args[0]], {}, getattr(node, "lineno", None)))
         return [Outcome("normal", fr.st, val=mk_bool(z3.Select(fr.st.ghost["FS_ex"].t, eng.as_V(args[0]))))]
     R.externals["os.path.isfile"] = ext_isfile
